@@ -14,11 +14,11 @@ RECURSIVE LexLess(_, _)
 LexLess(a, b) == IF a = <<>> \/ b = <<>> THEN FALSE ELSE IF a[1] < b[1] THEN TRUE ELSE IF a[1] > b[1] THEN FALSE ELSE LexLess(Tail(a), Tail(b))
 Better(a, b) == IF a = <<>> THEN FALSE ELSE IF b = <<>> THEN TRUE ELSE LexLess(a, b)
 MinCost(s) == FoldLeft(LAMBDA m, x : IF Better(x, m) THEN x ELSE m, <<>>, s)
-Min == MinCost(E.pairs)
+TheMin == MinCost(E.pairs)
 NoPanic == E.panic = ""
 \* "the chosen insertion always has the same, minimal cost vector as a sequential scan over the same jobs and tours"
 SameAsSequential == NoPanic => \A i \in 1..Len(E.runs) : E.runs[i].cost = E.runs[1].cost
-Minimal == NoPanic => \A i \in 1..Len(E.runs) : E.runs[i].cost = Min
+Minimal == NoPanic => \A i \in 1..Len(E.runs) : E.runs[i].cost = TheMin
 J_NoPanic == Judge("NoPanic", NoPanic)
 J_SameAsSequential == Judge("SameAsSequential", SameAsSequential)
 J_Minimal == Judge("Minimal", Minimal)
